@@ -267,6 +267,12 @@ pub fn adapt(c: &mut OpCase) {
     }
 }
 
+/// limb count of part `i` of a split / merge: half of the cases give the parts limb counts of their own (1..6)
+pub fn part_size(c: &OpCase, base: usize, i: usize) -> usize {
+    let bits = (c.x[2] as usize) | ((c.x[3] as usize) << 4);
+    if c.q & 1 == 1 && (bits >> (i % 8)) & 1 == 1 { 1 + (base + i) % 6 } else { base }
+}
+
 /// Runs the case on one backend in a guarded environment.
 pub fn exec<B: HalBackend>(m: &Module<B>, c: &OpCase, fill: u64, mode: ScratchMode) -> Outcome {
     let mut env = Env::new(m, c.seed, fill, mode);
@@ -388,7 +394,7 @@ fn exec_coeff<B: HalBackend>(env: &mut Env<B>, c: &OpCase) {
             let parts = n / n2;
             let a = env.in_znx("a", n, ac, as_, ak, ai, c1, b);
             const LABELS: [&str; 16] = ["p0", "p1", "p2", "p3", "p4", "p5", "p6", "p7", "p8", "p9", "p10", "p11", "p12", "p13", "p14", "p15"];
-            let mut outs: Vec<Slot> = (0..parts).map(|i| env.out(LABELS[i], Kind::Znx, n2, rc, rs, rk, ri)).collect();
+            let mut outs: Vec<Slot> = (0..parts).map(|i| env.out(LABELS[i], Kind::Znx, n2, rc, part_size(c, rs, i), rk, ri)).collect();
             let mut s = env.scratch(m.vec_znx_split_ring_tmp_bytes());
             {
                 let mut views: Vec<VecZnx<&mut [u8]>> = outs.iter_mut().map(|o| o.znx_mut()).collect();
@@ -404,7 +410,7 @@ fn exec_coeff<B: HalBackend>(env: &mut Env<B>, c: &OpCase) {
             let n2 = c.n2();
             let parts = n / n2;
             const LABELS: [&str; 16] = ["p0", "p1", "p2", "p3", "p4", "p5", "p6", "p7", "p8", "p9", "p10", "p11", "p12", "p13", "p14", "p15"];
-            let ins: Vec<Slot> = (0..parts).map(|i| env.in_znx(LABELS[i], n2, ac, as_, ak, ai, c1, b)).collect();
+            let ins: Vec<Slot> = (0..parts).map(|i| env.in_znx(LABELS[i], n2, ac, part_size(c, as_, i), ak, ai, c1, b)).collect();
             let mut r = env.out("res", Kind::Znx, n, rc, rs, rk, ri);
             let mut s = env.scratch(m.vec_znx_merge_rings_tmp_bytes());
             {
